@@ -2,6 +2,7 @@
 Model: coq/theories/Interp.v; theorems: coq/props/C02.v."""
 from collections import Counter
 
+import random
 from . import common as C
 from . import sfcore as S
 
@@ -24,13 +25,17 @@ W = dict(case_twin=0.07, dual_fwd=0.25, ref=0.45, fwd=0.45, nick=0.5, dotted=0.3
 
 
 DIRECTED = [S.stream_dual_forward_underfilled, S.stream_dual_forward_underfilled, S.stream_hidden_table_nicks, S.stream_late_forward_reference, S.stream_late_forward_reference, S.stream_first_statement_names, S.stream_stale_slot, S.stream_shared_nick_forward, S.stream_shared_nick_forward, S.stream_idle_middle, S.stream_once_cluster,
-            S.stream_randref_nicks, S.stream_nick_spelled_like_table, S.stream_captured_slot, S.stream_captured_slot]
+            S.stream_randref_nicks, S.stream_nick_spelled_like_table, S.stream_captured_slot, S.stream_captured_slot,
+            S.stream_randref_idle_target, S.stream_name_is_nick_and_table_forward]
 
 
-def gen_case(rng):
+def gen_case(rng, stream=None):
     from .c04 import row_valued_in_once
     directed = rng.random() < 0.12      # directed streams (DESIGN.md 11.4)
-    r, feats = rng.choice(DIRECTED)(rng) if directed else S.gen_recipe(rng, W)
+    if stream is not None:
+        r, feats = stream(rng)
+    else:
+        r, feats = rng.choice(DIRECTED)(rng) if directed else S.gen_recipe(rng, W)
     r["stmts"].append(["obj", {"table": MARK, "nick": None, "count": None, "once": False, "fields": [], "friends": []}])
     k = rng.choice([1, 2, 2, 3, 4])
     ks = [k]
@@ -41,7 +46,16 @@ def gen_case(rng):
 
 
 def generate(rng, tier):
-    return [gen_case(rng) for _ in range(380 if tier == "quick" else 10000)]
+    cases = [gen_case(rng) for _ in range(380 if tier == "quick" else 10000)]
+    # every directed stream also gets a fixed share of its own (own rng: the cases above stay what they were):
+    # a stream that only comes up through the 12 % draw above is hit a handful of times per run, and a change
+    # that needs one of them was caught by one case or by none, depending on the seed
+    rng2 = random.Random(rng.getrandbits(48) ^ 0xC02)
+    per = 10 if tier == "quick" else 120
+    for stream in sorted(set(DIRECTED), key=lambda f: f.__name__):
+        for _ in range(per):
+            cases.append(gen_case(rng2, stream))
+    return cases
 
 
 def run_impl(case):
